@@ -1,5 +1,6 @@
 import Memterm.Proofs.InvStep
 import Memterm.Proofs.SparseStep
+import Memterm.Proofs.SparseKeys
 import Memterm.Spec.C13
 
 /-
@@ -141,6 +142,14 @@ theorem sparse_ich (ss : Sparse.SScreen) (n : Option Nat) (hx : ss.s.cursor.x â‰
 theorem sparse_dch (ss : Sparse.SScreen) (n : Option Nat) (hx : ss.s.cursor.x â‰¤ ss.s.columns) :
     Sparse.abs (Sparse.deleteCharacters ss n) = deleteCharacters (Sparse.abs ss) n :=
   Sparse.abs_deleteCharacters ss n hx
+
+/-- NOTHING HIDDEN at the level of the HashMap: ICH / DCH leave every key of the row map inside the
+    row (no cell is parked at index == columns or beyond), given that all keys were inside before -/
+theorem sparse_ich_keys {ss : Sparse.SScreen} (h : Sparse.KeysIn ss) (hy : ss.s.cursor.y < ss.s.lines) (n : Option Nat) :
+    Sparse.KeysIn (Sparse.insertCharacters ss n) := Sparse.keysIn_insertCharacters h hy n
+
+theorem sparse_dch_keys {ss : Sparse.SScreen} (h : Sparse.KeysIn ss) (hy : ss.s.cursor.y < ss.s.lines) (n : Option Nat) :
+    Sparse.KeysIn (Sparse.deleteCharacters ss n) := Sparse.keysIn_deleteCharacters h hy n
 
 end C13
 end Memterm
